@@ -32,7 +32,7 @@ CheckRun(ev) ==
     LET hd  == [alts |-> ev.handler.alts, params |-> ev.handler.params, returnsValue |-> ev.handler.returnsValue, respCheck |-> ev.handler.respCheck]
         \* the status of a served request is fixed unless the validity of the returned zero value is beyond the specification
         statusFixed == ev.fail \/ ev.handler.respCheck # "unknown"
-        exp == RunOf(hd, [toks |-> ev.toks], ev.script, [fail |-> ev.fail, sameErr |-> ev.sameErr, status |-> ev.setStatus])
+        exp == RunOf(hd, [toks |-> ev.toks], ev.script, [fail |-> ev.fail, sameErr |-> ev.sameErr, status |-> ev.setStatus, stopAt |-> ev.stopAt])
         o   == ev.obs
     IN  IF ev.probe
         THEN Viol("C02", ~o.invoked, "a request to a verb/path nobody annotated reached a controller")
@@ -44,10 +44,15 @@ CheckRun(ev) ==
              /\ Viol("C05", exp.outcome # "rejected" \/ o.panicked \/ (~o.invoked /\ o.status = 422), "a missing / non-convertible parameter was not answered 422 without invoking the method")
              /\ Viol("C05", exp.outcome # "invoked" \/ ~o.invoked \/ o.args = exp.args, "arguments received by the controller differ from the request's values")
              /\ Viol("C05", exp.outcome # "invoked" \/ ~o.invoked \/ ~statusFixed \/ o.status = exp.status, "status of a served request differs from the expected one")
+             \* user middlewares: exactly the stages the handler machine passes through, in registration order, stopping where scripted
+             \* (when the validity of the returned zero value is unknown the onOutput / after stages are not constrained)
+             /\ Viol("C03", exp.outcome # "refused" \/ o.panicked \/ o.mw = <<>>, "a user middleware ran although every security alternative was refused")
+             /\ Viol("C12", o.panicked \/ ~statusFixed \/ exp.outcome = "refused" \/ o.mw = exp.mw, "user middlewares invoked differ from the handler machine's stages")
+             /\ Viol("C12", exp.outcome \notin {"stopped", "rejected-stopped"} \/ o.panicked \/ (o.status = 418 /\ (exp.outcome = "stopped" => ~o.invoked)), "a middleware said stop, yet the handler went on")
 
 CheckCmp(ev) == Viol("C12", \A i, j \in DOMAIN ev.outcomes : ev.outcomes[i] = ev.outcomes[j], "engines disagree")
 
-TraceInit == l = 1 /\ h = 0 /\ req = 0 /\ script = 0 /\ st = 0        \* the machine variables of Router.tla are not used here
+TraceInit == l = 1 /\ h = 0 /\ req = 0 /\ script = 0 /\ st = 0 /\ ropts = 0        \* the machine variables of Router.tla are not used here
 TraceNext == /\ l <= Len(Trace) /\ UNCHANGED rvars
              /\ IF Trace[l].ev = "Run" THEN CheckRun(Trace[l]) ELSE CheckCmp(Trace[l])
              /\ l' = l + 1
